@@ -4,6 +4,7 @@ from props import _exprcheck as X
 ID = "C01"
 SECTIONS = ["ops"]
 LEAN_MODULES = ["QExPy.Props.C01"]
+LEMMA_MODULES = ["QExPy.Lemmas.Rules", "QExPy.Props.C03"]
 THEOREMS = ["QExPy.rule1", "QExPy.rule2", "QExPy.rule_pow_const", "QExPy.C03_diff_correct",
             "QExPy.C01_value", "QExPy.C01_quadratic_form", "QExPy.C01_error",
             "QExPy.C01_partials_exact", "QExPy.C01_perm_invariant", "QExPy.C01_self_cancel_sub",
@@ -20,7 +21,7 @@ TRUSTED = ["modelled not verified: numpy element-wise functions, CPython float a
 
 
 def correspond(ctx):
-    return X.run(ctx, "c01", ctx.n(400, 30000), gen_kwargs={"allow_repeated": True})
+    return X.run(ctx, "c01", ctx.n(400, 100000), gen_kwargs={"allow_repeated": True})
 
 
 def search(ctx, broken):
